@@ -9,6 +9,8 @@
 package remux
 
 import (
+	"bytes"
+
 	"github.com/q191201771/lal/pkg/base"
 )
 
@@ -59,6 +61,10 @@ type GopCache struct {
 	VideoSeqHeader                    []byte
 	AacSeqHeader                      []byte
 
+	// payloads of the cached sequence headers, to notice when the publisher changes them
+	videoSeqHeaderPayload []byte
+	aacSeqHeaderPayload   []byte
+
 	gopRing              []Gop
 	gopRingFirst         int
 	gopRingLast          int
@@ -105,12 +111,20 @@ func (gc *GopCache) Feed(msg base.RtmpMsg, b []byte) bool {
 		return true
 	case base.RtmpTypeIdAudio:
 		if msg.IsAacSeqHeader() {
+			if gc.AacSeqHeader != nil && !bytes.Equal(gc.aacSeqHeaderPayload, msg.Payload) {
+				gc.clearGops()
+			}
+			gc.aacSeqHeaderPayload = append([]byte(nil), msg.Payload...)
 			gc.AacSeqHeader = b
 			Log.Debugf("[%s] cache %s aac seq header. size:%d", gc.uniqueKey, gc.t, len(gc.AacSeqHeader))
 			return true
 		}
 	case base.RtmpTypeIdVideo:
 		if msg.IsVideoKeySeqHeader() {
+			if gc.VideoSeqHeader != nil && !bytes.Equal(gc.videoSeqHeaderPayload, msg.Payload) {
+				gc.clearGops()
+			}
+			gc.videoSeqHeaderPayload = append([]byte(nil), msg.Payload...)
 			gc.VideoSeqHeader = b
 			Log.Debugf("[%s] cache %s video seq header. size:%d", gc.uniqueKey, gc.t, len(gc.VideoSeqHeader))
 			return true
@@ -144,6 +158,14 @@ func (gc *GopCache) Clear() {
 	gc.MetadataEnsureWithoutSetDataFrame = nil
 	gc.VideoSeqHeader = nil
 	gc.AacSeqHeader = nil
+	gc.videoSeqHeaderPayload = nil
+	gc.aacSeqHeaderPayload = nil
+	gc.clearGops()
+}
+
+// clearGops drops the cached GOPs: they were encoded against sequence headers that are no longer
+// the ones a new subscriber is given, so replaying them would hand it frames it cannot decode.
+func (gc *GopCache) clearGops() {
 	gc.gopRingLast = 0
 	gc.gopRingFirst = 0
 }
